@@ -243,7 +243,17 @@ Message *Message::factory(const F8MetaCntx& ctx, const f8String& from, bool no_c
 #if defined FIX8_CODECTIMING
 	_codec_timings.start(sw_decode_time);
 #endif
-	msg->decode(from, hlen, 7, permissive_mode); // skip already decoded mandatory 8, 9, 35 and 10
+	const unsigned consumed(msg->decode(from, hlen, 7, permissive_mode)); // skip already decoded mandatory 8, 9, 35 and 10
+	if (!permissive_mode && consumed + 7 < from.size())
+	{
+		// strict mode: the decoder stopped at a field that is not valid where it stands;
+		// reject the message instead of silently dropping that field and everything after it
+		unsigned badtag(0);
+		for (const char *ptr(from.data() + consumed), *eptr(from.data() + from.size()); ptr < eptr && isdigit(*ptr); ++ptr)
+			badtag = badtag * 10 + (*ptr - '0');
+		delete msg;
+		throw UnknownField(badtag);
+	}
 #if defined FIX8_CODECTIMING
 	_codec_timings.stop(sw_decode_time);
 #endif
